@@ -802,6 +802,10 @@ func suiteSrt(R *runner, r *rng) {
 		in := &enc{}
 		encSrtItems(in, s)
 		o := &obs{Suite: "srtwrite", Group: "srt.write", Input: in.String(), Human: map[string]interface{}{"cues": cues}, NT: len(cues) > 0}
+		if c%8 == 5 {
+			s.Items = withNilItems(s.Items, c/8) // the model input above is the list without the nil elements
+			R.count("srt.write.nil_item")
+		}
 		var buf bytes.Buffer
 		var err error
 		p := safely(func() { err = s.WriteToSRT(&buf) })
